@@ -11,6 +11,7 @@ from argparse import ArgumentParser
 
 import attr
 from werkzeug import test as werkzeug_test
+from werkzeug.urls import url_quote
 from werkzeug.utils import redirect
 from werkzeug.wrappers import Request, Response, BaseResponse
 
@@ -297,8 +298,10 @@ class Application(object):
                 norm_path = normalize_path(url_path, route.is_branch)
                 if norm_path != url_path:
                     if route.slash_mode == S_REDIRECT:
-                        parts = [request.url_root.rstrip('/'),
-                                 norm_path, '?', request.query_string.decode('utf8')]
+                        # norm_path is decoded; re-quote it so that '?', '#'
+                        # and '%' in a segment stay part of the path
+                        parts = [request.url_root.rstrip('/'), url_quote(norm_path),
+                                 '?', request.query_string.decode('utf8')]
                         return redirect(''.join(parts))  # TODO: error_handler
                     elif route.slash_mode == S_STRICT:
                         nf_exc = err_handler.not_found_type(request=request,
